@@ -24,7 +24,7 @@ CLAIMED['C02'] = {
             'closed under the global context); regenerated-table obligations (C02_gen_*) re-tie the model to the running code '
             'over its complete finite domains on every run; ~1270 end-to-end runs of real cases through MainProgram.execute.',
     'note': 'trusted: Coq kernel + vm_compute; tabulating translator harness/c02.py; the documented table in Spec/C02.v was typed '
-            'in by hand from the property statement/README; INTERNAL_ERROR endings only through synthetic results.',
+            'in by hand from the property statement/README; INTERNAL_ERROR ending produced end to end through the recorded C08 finding (KeyError in cleanup).',
     'technique': 'Coq finite-table proof + tables regenerated from running code (vm_compute obligations) + end-to-end differential runs',
 }
 CLAIMED['C16'] = {
